@@ -47,6 +47,9 @@ func moduleOrder(rep *mbt.Report, tier string, rng *rand.Rand) {
 			if strings.HasPrefix(sec, "named-metadata-nodes") {
 				sec = "named-metadata-nodes"
 			}
+			if strings.HasPrefix(sec, "attrgroup-merge") {
+				sec = "attrgroup-merge"
+			}
 			rep.Fail(mbt.Failure{Signature: "C20|module-order|" + sec, What: d + "\ninput:\n" + mbt.Truncate(c.Text, 400), Case: map[string]string{"src": c.Text}})
 		}
 	}
